@@ -50,6 +50,13 @@ OBLIGATIONS.append(dict(name="tar_iterator_sparse_member", harness="harness/C04_
     functions=["strm_get_buffered_data, strm_advance_buffer, is_sparse_region, it_open_file_ro (lib/tar/src/iterator.c)"],
     bound="one sparse member: real size <= 10, one mapped data region of symbolic offset and length, the archive hands out 1..8 bytes per call and may fail"))
 
+OBLIGATIONS.append(dict(name="tar_iterator_hostile_sparse_map", harness="harness/C04_iterator.c", sources=[], included_sources=["lib/tar/src/iterator.c"],
+    incdirs=["lib/tar/src"], defines=dict(HOSTILE=1, FSMAX=6), unwind=10, tiers=["quick", "thorough"], timeout=600,
+    fp_map={"get_buffered_data": ["base_get"], "advance_buffer": ["base_adv"], "destroy": ["base_destroy", "it_destroy"]},
+    reach=["ended", "io_error"],
+    functions=["strm_get_buffered_data, strm_advance_buffer, is_sparse_region (lib/tar/src/iterator.c)"],
+    bound="one member of <= 6 bytes real size with an arbitrary sparse map of 1..2 regions (any 64 bit offsets and counts), any record size"))
+
 ASSUMPTIONS = ["ctype classification = C locale (stubs/vp_ctype.c)", "path lookup replaced by a symbolic graph (superset of all archives / pack files)"]
 OUTSIDE = ["zlib/xz/zstd/bzip2 on corrupt streams", "glob.c against a real directory"]
 META = dict(
